@@ -71,15 +71,17 @@ class Session:
         raw = text if isinstance(text, (bytes, bytearray)) else (text.encode() + b"\0")
         return self._add(self.sim.cmd(t, raw, ("127.0.0.1", rport)))
 
-    def data(self, t, raw):
-        return self._add(self.sim.data(t, raw))
+    def data(self, t, raw, remote=None):
+        return self._add(self.sim.data(t, raw, remote))
 
     def tick(self):
         return self._add(self.sim.tick())
 
     def garbage(self, sock, t, raw, rport=45000):
         """A datagram that is not a well-formed documented command / message."""
-        e = self.sim.cmd(t, raw, ("127.0.0.1", rport)) if sock == "ctrl" else self.sim.data(t, raw)
+        # hostile data comes from somewhere else than the transceiver's L1
+        e = self.sim.cmd(t, raw, ("127.0.0.1", rport)) if sock == "ctrl" else \
+            self.sim.data(t, raw, remote=("127.0.0.1", 40000 + (len(self.ev) % 7)))
         e["e"] = "garbage"
         e["sock"] = sock
         e.setdefault("rport", rport)
